@@ -97,6 +97,8 @@ type Op struct {
 	V uint64 `json:"v,omitempty"` // sleep delay / kill date / working hours
 	W uint32 `json:"w,omitempty"` // sleep jitter
 	L *LSpec `json:"l,omitempty"` // ladd, ledit
+	KK bool  `json:"kk,omitempty"` // checkin: keep the agent's current key/IV (only the metadata changes)
+	T string `json:"t,omitempty"`  // generator class of a crafted update (boundary shift, swap, no-op, revert), for the evidence
 }
 
 type History struct {
@@ -323,9 +325,13 @@ func (r *runState) apply(op Op) bool {
 		}
 		r.req++
 		pvx.Outstanding(a, r.req, pvx.CmdCheckin)
-		k, iv := keyFrom(op.S)
+		seed := op.S
+		if op.KK {
+			seed = r.seed(op.A)
+		}
+		k, iv := keyFrom(seed)
 		w.Callback(a, r.req, pvx.CmdCheckin, op.M.ref(spec.ID).InitBody(k, iv, false))
-		r.seeds[op.A] = op.S
+		r.seeds[op.A] = seed
 	case "sleep":
 		r.req++
 		pvx.Outstanding(a, r.req, pvx.CmdSleep)
